@@ -74,7 +74,7 @@ func spell(r *Rng, m *ModuleSpec, pis []int) []string {
 }
 
 func drawBase(r *Rng) string {
-	return Pick(r, []string{"zz_generated", "zz_generated", "gen", "zz.out"})
+	return Pick(r, []string{"zz_generated", "zz_generated", "gen", "zz.out", "zz-gen", "gen_v1.2"})
 }
 
 // SimC04: one world executed under different schedules, entrypoint orders and
